@@ -121,6 +121,18 @@ def make_math(obj: dict, bounds):
                 s += z * z
             return off + s
 
+    elif fam == "tinyval":
+        # a bowl whose values are of the order 1e-12 (absolute tie-breaks / tolerances must not outrank them)
+        sc_ = float(obj.get("scale", 1e-12))
+
+        def g(x):
+            xs = x.tolist()
+            s = 0.0
+            for i in rng:
+                z = (xs[i] - c[i]) / R[i]
+                s += z * z
+            return sc_ * s
+
     elif fam == "penalty":
         # a hard penalty: the value is infinite in the *bad* direction in a corner region (e.g. an infeasible zone)
         frac = float(obj.get("frac", 0.3))
@@ -192,6 +204,8 @@ def gen_objective(rng, d: int, fam: str | None = None) -> dict:
         obj["q"] = rng.choice([4.0, 8.0, 30.0])
     elif fam == "constant":
         obj["v"] = rng.choice([0.0, 1.5, -2.0])
+    elif fam == "tinyval":
+        obj["scale"] = rng.choice([1e-11, 1e-12, 1e-13])
     elif fam == "penalty":
         obj["frac"] = rng.choice([0.25, 0.4])
     elif fam == "offset":
